@@ -6,6 +6,9 @@ def S(name, build, tiers=("quick", "thorough"), args=(), **kw):
     return d
 
 STAGES = {
+    "C10": [S("native", "native")],
+    "C11": [S("native", "native")],
+    "C19": [S("native", "native")],
     "C04": [S("native", "native")],
     "C05": [S("native", "native")],
     "C07": [S("native", "native")],
@@ -27,6 +30,9 @@ STAGES = {
 }
 
 LEVELS = {
+    "C10": "fault_enumeration",
+    "C11": "fault_enumeration",
+    "C19": "exploration",
     "C04": "exploration",
     "C05": "exploration",
     "C07": "exploration",
@@ -42,6 +48,17 @@ LEVELS = {
 }
 
 ASSUMPTIONS = {
+    "C10": [
+        "crash points are the boundaries between the writer's own write/seek calls on a destination that accepts every write completely (a short-writing destination would add boundaries the writer does not control)",
+        "the strict decoder of C01 is the judge of 'readable truncated minidump'",
+    ],
+    "C11": [
+        "the quiescent sentinel threads are compared across dumps; running threads (main, sleepers) only by presence",
+        "the exited-leader target is the natural source of unreadable auxv / unattachable thread in this sandbox (PR_SET_MM_* is refused)",
+    ],
+    "C19": [
+        "the fresh writer dumps the same quiescent target immediately after the reused one; the running main thread is compared by presence only",
+    ],
     "C04": [
         "sentinel threads load generated values into every register and then either spin in a 2-instruction loop or block in a raw pause syscall with all signals blocked, so the register file the kernel reports is known to the checker",
         "for threads blocked in a syscall RAX, RCX and R11 are not compared (clobbered by the syscall ABI)",
@@ -94,6 +111,21 @@ ASSUMPTIONS = {
 }
 
 META = {
+    "C10": {
+        "technique": "crash-point and I/O-fault enumeration on a recording destination: every post-call snapshot and every injected-error end state of a real dump is decoded as a truncated minidump by the strict decoder",
+        "level_text": "For each explored dump the destination is snapshotted after EVERY write/seek call (all ~60-90 boundaries) and each snapshot must decode with header and full directory present and every published directory entry's stream and referenced blobs wholly present; then an I/O error (plain or after a partial store) is injected at EVERY call index and the aborted destination gets the same check. Exhaustive per dump; dumps (3 target shapes x option combinations incl. failing dso-debug) are sampled.",
+        "level_note": "Destination accepts whole writes (boundaries are the writer's calls). src/mac shares DirSection but is not executed.",
+    },
+    "C11": {
+        "technique": "fault enumeration: all 32 subsets of the five fail points x target shapes, per-thread name faults through the hook, natural failures (unmapped program headers, exited thread-group leader); JSON-path expectations + canonical-form diff against a no-fault dump of the same quiescent target",
+        "level_text": "Exhaustive over the 32 fail-point subsets on each target shape: dump must be Ok, the soft-error stream must be a JSON list containing exactly the injected failures under their step keys, `[]` when nothing failed, an absent best-effort stream iff its error key, and every other stream canonical-equal to the reference dump. Natural failures are sampled.",
+        "level_note": "Failures of the /proc and release-file copies cannot be induced individually in this sandbox beyond what the exited-leader target produces; they are covered by the generic absent-stream <=> error-key invariant.",
+    },
+    "C19": {
+        "technique": "differential monitor: k-th image of a reused writer vs. the image of a fresh identically configured writer on the same quiescent target, in canonical form; strict decoder on every reused image",
+        "level_text": "Histories of 2..5 requests on one writer under random option sets, with blamed thread (incl. a thread that is not listed), principal address, crash context or target changed between requests through the public fields; every request is paired with a fresh-writer dump and compared stream by stream modulo timestamp and RVAs. Exploration.",
+        "level_note": "Equivalence is judged on decoded content, not bytes. Linux writer only.",
+    },
     "C04": {
         "technique": "sentinel-register oracle (every register of every target thread is generated ground truth) + tid-set equality + vanished-thread placement through sync hooks + spinner-triple snapshot invariant with injected delays after each flush",
         "level_text": "Real dumps of targets with 1..64 threads whose sentinel threads hold generated values in all 16 GPRs, flags, segment selectors, XMM0-15, MXCSR, x87 CW and ST0-7; each captured context is compared field by field; tid sets must match exactly; exiter threads leave at hook-placed points and must be listed or reported; a spinner keeps one counter in a register, a stack slot and an application word whose captured values may differ by at most one step, with a delay injected after every flush index in turn. Exploration over sampled schedules.",
